@@ -133,3 +133,563 @@ Lemma existsb_impl : forall {A} (f g : A -> bool) l,
 Proof.
   intros A f g l H He. apply existsb_exists in He as [x [Hx Hf]]. apply existsb_exists. exists x. auto.
 Qed.
+
+Lemma existsb_map_fst : forall {A B} (f : A -> bool) (l : list (A * B)),
+  existsb (fun kv => f (fst kv)) l = existsb f (map fst l).
+Proof. intros A B f l. induction l as [|x r IH]; cbn; [reflexivity|]. now rewrite IH. Qed.
+
+(* merging "for all sufficiently large fuel" over a list *)
+Lemma ex_merge : forall {A} (P : nat -> A -> Prop) l,
+  (forall x, In x l -> exists m, forall f, m <= f -> P f x) ->
+  exists m, forall f, m <= f -> forall x, In x l -> P f x.
+Proof.
+  intros A P l. induction l as [|x r IH]; intros H.
+  - exists 0. intros f _ x [].
+  - destruct (H x (or_introl eq_refl)) as [m1 H1].
+    destruct IH as [m2 H2]; [intros y Hy; apply H; now right|].
+    exists (Nat.max m1 m2). intros f Hf y [Hy|Hy]; [subst; apply H1; lia | apply H2; [lia | assumption]].
+Qed.
+
+(* ================================================================== the semantics, unfolded *)
+Section Sem.
+Variable rt : runtime.
+Variable E : env.
+
+Definition pk (fv : nat * pv) : pv * pv := (PKey (fst fv), snd fv).
+
+Definition cls_step (u : ty -> pv -> res pv) (cd : classdef) (acc : res (list (nat * pv))) (kv : pv * pv)
+  : res (list (nat * pv)) :=
+  bind acc (fun kw =>
+    match fst kv with
+    | PKey f => match field_ty cd f with
+                | Some ft => bind (u ft (snd kv)) (fun v' => Ok (kw_set f v' kw))
+                | None => Ok kw end
+    | k => if unhashable rt k then Raise EType else Ok kw
+    end).
+
+Definition map_step (u : ty -> pv -> res pv) (kt vt : ty) (kv : pv * pv) : res (pv * pv) :=
+  bind (u kt (fst kv)) (fun k' => bind (u vt (snd kv)) (fun v' => Ok (k', v'))).
+
+Definition unm_cls (u : ty -> pv -> res pv) (c : nat) (x : pv) : res pv :=
+  match E c with
+  | None => Raise EOther
+  | Some (NType t') => u t' x
+  | Some (NClass cd) =>
+      bind (load rt x) (fun d => bind (iteritems rt E d) (fun kvs =>
+      bind (fold_left (cls_step u cd) kvs (Ok [])) (fun kw => construct_class c cd kw)))
+  end.
+
+Lemma unm_leaf f s x : unm rt E (S f) (TLeaf s) x = leaf_u rt s x. Proof. reflexivity. Qed.
+Lemma unm_refleaf f s x : unm rt E (S f) (TRefLeaf s) x = leaf_u rt s x. Proof. reflexivity. Qed.
+Lemma unm_none f x : unm rt E (S f) TNone x = none_u rt x. Proof. reflexivity. Qed.
+Lemma unm_seq f k a x : unm rt E (S f) (TSeq k a) x =
+  bind (load rt x) (fun d => bind (itervalues rt d) (fun vs =>
+  bind (mapM (unm rt E f a) vs) (fun rs => construct_seq rt k rs))).
+Proof. reflexivity. Qed.
+Lemma unm_map f k kt vt x : unm rt E (S f) (TMap k kt vt) x =
+  bind (load rt x) (fun d => bind (iteritems rt E d) (fun kvs =>
+  bind (mapM (map_step (unm rt E f) kt vt) kvs) (fun rs => construct_map rt k rs))).
+Proof. reflexivity. Qed.
+Lemma unm_tuple f ts x : unm rt E (S f) (TTuple ts) x =
+  bind (load rt x) (fun d => bind (itervalues rt d) (fun vs =>
+  bind (mapM (fun tv => unm rt E f (fst tv) (snd tv)) (zip_trunc ts vs)) (fun rs => Ok (PSeq KTuple rs)))).
+Proof. reflexivity. Qed.
+Lemma unm_union f ts x : unm rt E (S f) (TUnion ts) x = first_ok rt (map (unm rt E f) (union_stack_u ts)) x.
+Proof. reflexivity. Qed.
+Lemma unm_name f c x : unm rt E (S f) (TName c) x = unm_cls (unm rt E f) c x. Proof. reflexivity. Qed.
+Lemma unm_ref f c x : unm rt E (S f) (TRef c) x = unm_cls (unm rt E f) c x. Proof. reflexivity. Qed.
+Lemma unm_aliasstr f i c x : unm rt E (S f) (TAliasStr i c) x = unm_cls (unm rt E f) c x. Proof. reflexivity. Qed.
+Lemma unm_newtype f i t x : unm rt E (S f) (TNewType i t) x = unm rt E f t x. Proof. reflexivity. Qed.
+Lemma unm_alias f i t x : unm rt E (S f) (TAlias i t) x = unm rt E f t x. Proof. reflexivity. Qed.
+Lemma unm_final f t x : unm rt E (S f) (TFinal t) x = unm rt E f t x. Proof. reflexivity. Qed.
+Lemma unm_classvar f t x : unm rt E (S f) (TClassVar t) x = unm rt E f t x. Proof. reflexivity. Qed.
+Lemma unm_refto f t x : unm rt E (S f) (TRefTo t) x = unm rt E f t x. Proof. reflexivity. Qed.
+
+(* ------------------------------------------------------------------ constructors on already-built values *)
+Lemma mem_pv_app : forall x a b, mem_pv rt x (a ++ b) = mem_pv rt x a || mem_pv rt x b.
+Proof. intros x a b. induction a as [|y r IH]; cbn; [reflexivity|]. now rewrite IH, orb_assoc. Qed.
+
+Lemma fresh_dedupe : forall l seen, fresh_from rt l seen = true -> dedupe rt l seen = l.
+Proof.
+  induction l as [|x r IH]; cbn; intros seen H; [reflexivity|].
+  apply andb_true_iff in H as [H1 H2]. apply negb_true_iff in H1. rewrite H1. f_equal. now apply IH.
+Qed.
+
+Lemma construct_seq_id : forall k l, set_ok rt k l = true -> construct_seq rt k l = Ok (PSeq k l).
+Proof.
+  intros k l H. destruct k; cbn in *; try reflexivity;
+    apply andb_true_iff in H as [H1 H2]; unfold hashable_all in H1; apply negb_true_iff in H1;
+    rewrite H1; now rewrite fresh_dedupe.
+Qed.
+
+Lemma dict_set_fresh : forall k v d, mem_pv rt k (map fst d) = false -> dict_set rt k v d = d ++ [(k, v)].
+Proof.
+  intros k v d. induction d as [|[k' v'] r IH]; cbn; intros H; [reflexivity|].
+  apply orb_false_iff in H as [H1 H2]. rewrite H1. f_equal. now apply IH.
+Qed.
+
+Lemma dict_fold_fresh : forall l acc seen,
+  (forall x, mem_pv rt x seen = false -> mem_pv rt x (map fst acc) = false) ->
+  fresh_from rt (map fst l) seen = true ->
+  fold_left (fun d kv => dict_set rt (fst kv) (snd kv) d) l acc = acc ++ l.
+Proof.
+  induction l as [|[k v] r IH]; intros acc seen Hs Hf; cbn in *; [now rewrite app_nil_r|].
+  apply andb_true_iff in Hf as [H1 H2]. apply negb_true_iff in H1.
+  rewrite dict_set_fresh by auto. rewrite (IH _ (k :: seen)); [now rewrite <- app_assoc | | assumption].
+  intros x Hx. cbn in Hx. apply orb_false_iff in Hx as [Hx1 Hx2].
+  rewrite map_app, mem_pv_app. cbn. rewrite Hx1, (Hs _ Hx2). reflexivity.
+Qed.
+
+Lemma construct_map_id : forall k l, keys_ok rt (map fst l) = true -> construct_map rt k l = Ok (PDict k l).
+Proof.
+  intros k l H. unfold keys_ok, hashable_all in H. apply andb_true_iff in H as [H1 H2].
+  apply negb_true_iff in H1. unfold construct_map. rewrite existsb_map_fst, H1.
+  unfold dict_of. rewrite (dict_fold_fresh l [] []); [reflexivity | auto | assumption].
+Qed.
+
+Lemma zip_in : forall {A B} e (f : A -> B -> bool) ts l tv,
+  all2 e f ts l = true -> In tv (zip_trunc ts l) -> f (fst tv) (snd tv) = true /\ In (fst tv) ts /\ In (snd tv) l.
+Proof.
+  intros A B e f ts. induction ts as [|t ts IH]; intros [|x l] tv Ha Hin; cbn in *; try contradiction.
+  apply andb_true_iff in Ha as [H1 H2]. destruct Hin as [Hin|Hin].
+  - subst. cbn. auto.
+  - destruct (IH _ _ H2 Hin) as [Ha [Hb Hc]]. auto.
+Qed.
+
+Lemma tuple_pass : forall e (chk : ty -> pv -> bool) (u : ty -> pv -> res pv) ts l,
+  all2 e chk ts l = true ->
+  (forall tv, In tv (zip_trunc ts l) -> u (fst tv) (snd tv) = Ok (snd tv)) ->
+  mapM (fun tv => u (fst tv) (snd tv)) (zip_trunc ts l) = Ok l.
+Proof.
+  intros e chk u ts. induction ts as [|t ts IH]; intros [|x l] Ha H; cbn in *; try discriminate; try reflexivity.
+  apply andb_true_iff in Ha as [H1 H2]. pose proof (H (t, x) (or_introl eq_refl)) as Hx. cbn in Hx.
+  rewrite Hx. cbn. rewrite IH; [reflexivity | assumption | intros tv Hin; apply H; now right].
+Qed.
+
+(* ---- classes ---- *)
+Lemma kw_set_fresh : forall f v kw, ~ In f (map fst kw) -> kw_set f v kw = kw ++ [(f, v)].
+Proof.
+  intros f v kw. induction kw as [|[g w] r IH]; cbn; intros H; [reflexivity|].
+  destruct (Nat.eqb f g) eqn:Hfg; [apply Nat.eqb_eq in Hfg; subst; exfalso; apply H; now left|].
+  f_equal. apply IH. intros Hin. apply H. now right.
+Qed.
+
+Lemma fold_pass : forall (u : ty -> pv -> res pv) cd fs kw0,
+  NoDup (map fst fs) -> (forall g, In g (map fst fs) -> ~ In g (map fst kw0)) ->
+  (forall gv, In gv fs -> exists ft, field_ty cd (fst gv) = Some ft /\ u ft (snd gv) = Ok (snd gv)) ->
+  fold_left (cls_step u cd) (map pk fs) (Ok kw0) = Ok (kw0 ++ fs).
+Proof.
+  intros u cd fs. induction fs as [|[g x] r IH]; intros kw0 Hnd Hdis Hel; cbn [map fold_left].
+  - now rewrite app_nil_r.
+  - destruct (Hel (g, x) (or_introl eq_refl)) as [ft [Hft Hu]]. cbn in Hft, Hu.
+    unfold cls_step at 2. cbn [bind pk fst snd]. rewrite Hft, Hu. cbn [bind].
+    rewrite kw_set_fresh by (apply Hdis; now left).
+    inversion Hnd as [|? ? Hnot Hnd']. subst.
+    rewrite IH; [now rewrite <- app_assoc | assumption | | intros gv Hin; apply Hel; now right].
+    intros h Hh Hin. rewrite map_app in Hin. apply in_app_or in Hin as [Hin|Hin].
+    + apply (Hdis h); [now right | assumption].
+    + cbn in Hin. destruct Hin as [Hin|[]]. subst. contradiction.
+Qed.
+
+Lemma kw_lookup_nodup : forall fs g v, NoDup (map fst fs) -> In (g, v) fs -> kw_lookup g fs = Some v.
+Proof.
+  induction fs as [|[h w] r IH]; intros g v Hnd Hin; [contradiction|].
+  cbn. inversion Hnd as [|? ? Hnot Hnd']. subst. destruct Hin as [Hin|Hin].
+  - inversion Hin. subst. now rewrite Nat.eqb_refl.
+  - destruct (Nat.eqb g h) eqn:Hgh.
+    + apply Nat.eqb_eq in Hgh. subst. exfalso. apply Hnot. change h with (fst (h, v)). now apply in_map.
+    + now apply IH.
+Qed.
+
+Lemma fill_self_gen : forall fields fs kw,
+  map fst fs = map fname fields -> (forall g v, In (g, v) fs -> kw_lookup g kw = Some v) ->
+  fill_fields fields kw = Ok fs.
+Proof.
+  induction fields as [|fd fields IH]; intros [|[g v] fs] kw Hm Hl; cbn in Hm; try discriminate; [reflexivity|].
+  inversion Hm as [[Hg Hm']]. cbn. rewrite <- Hg, (Hl g v) by now left.
+  rewrite (IH fs kw); [reflexivity | assumption | intros h w Hin; apply Hl; now right].
+Qed.
+
+Lemma fill_self : forall fields fs, NoDup (map fst fs) -> map fst fs = map fname fields -> fill_fields fields fs = Ok fs.
+Proof. intros fields fs Hnd Hm. apply fill_self_gen; [assumption|]. intros g v. now apply kw_lookup_nodup. Qed.
+
+Lemma field_ty_nodup : forall cd fd, NoDup (map fname (cfields cd)) -> In fd (cfields cd) ->
+  field_ty cd (fname fd) = Some (fty fd).
+Proof.
+  intros cd fd. unfold field_ty. generalize (cfields cd) as l.
+  induction l as [|fd' l IH]; intros Hnd Hin; [contradiction|]. cbn.
+  inversion Hnd as [|? ? Hnot Hnd']. subst. destruct Hin as [Hin|Hin].
+  - subst. now rewrite Nat.eqb_refl.
+  - destruct (Nat.eqb (fname fd') (fname fd)) eqn:Hq.
+    + apply Nat.eqb_eq in Hq. exfalso. apply Hnot. rewrite Hq. now apply in_map.
+    + now apply IH.
+Qed.
+
+Lemma field_ty_in : forall cd g ft, field_ty cd g = Some ft -> exists fd, In fd (cfields cd) /\ ft = fty fd.
+Proof.
+  intros cd g ft. unfold field_ty. destruct (find _ _) as [fd|] eqn:Hf; [|discriminate].
+  intros H. inversion H. apply find_some in Hf as [Hin _]. now exists fd.
+Qed.
+
+Lemma Forall2_in_r : forall {A B} (R : A -> B -> Prop) l l' y,
+  Forall2 R l l' -> In y l' -> exists x, In x l /\ R x y.
+Proof.
+  intros A B R l l' y H. induction H as [|a b l l' Hab _ IH]; intros Hin; [contradiction|].
+  destruct Hin as [Hin|Hin]; [subst; exists a; split; [now left | assumption]|].
+  destruct (IH Hin) as [x [Hx HR]]. exists x. split; [now right | assumption].
+Qed.
+
+Lemma Forall2_imp : forall {A B} (R Q : A -> B -> Prop) l l',
+  (forall a b, R a b -> Q a b) -> Forall2 R l l' -> Forall2 Q l l'.
+Proof. intros A B R Q l l' H HF. induction HF; constructor; auto. Qed.
+
+Lemma Forall2_map_fst : forall (fields : list field) (fs : list (nat * pv)) (Q : field -> nat * pv -> Prop),
+  Forall2 (fun fd gv => fname fd = fst gv /\ Q fd gv) fields fs -> map fst fs = map fname fields.
+Proof. intros fields fs Q H. induction H as [|fd gv l l' [Hn _] _ IH]; cbn; [reflexivity|]. now rewrite Hn, IH. Qed.
+
+Lemma Forall2_combine : forall (R : field -> pv -> Prop) fields l,
+  Forall2 R fields l ->
+  Forall2 (fun fd gv => fname fd = fst gv /\ R fd (snd gv)) fields (combine (map fname fields) l)
+  /\ map snd (combine (map fname fields) l) = l.
+Proof.
+  intros R fields l H. induction H as [|fd x fields l Hx _ [IH1 IH2]]; cbn; [split; [constructor | reflexivity]|].
+  split; [constructor; [cbn; auto | assumption] | now rewrite IH2].
+Qed.
+
+Lemma combine_pk : forall names l, combine (map PKey names) l = map pk (combine names l).
+Proof. induction names as [|a r IH]; intros [|x l]; cbn; try reflexivity. now rewrite IH. Qed.
+
+Lemma iteritems_obj : forall c fs, iteritems rt E (PObj c fs) = Ok (map pk fs). Proof. reflexivity. Qed.
+
+Lemma td_shape : forall chk kvs seen, td_ok chk kvs seen = true ->
+  exists fs, kvs = map pk fs /\ NoDup (map fst fs) /\ (forall g, In g (map fst fs) -> ~ In g seen)
+             /\ (forall gv, In gv fs -> chk (fst gv) (snd gv) = true).
+Proof.
+  intros chk kvs. induction kvs as [|[k x] r IH]; intros seen H; cbn in H.
+  - exists []. repeat split; [constructor | intros g [] | intros gv []].
+  - destruct k; try discriminate.
+    apply andb_true_iff in H as [H1 H3]. apply andb_true_iff in H1 as [H1 H2]. apply negb_true_iff in H1.
+    destruct (IH _ H3) as [fs [Hk [Hnd [Hdis Hchk]]]]. exists ((f, x) :: fs). subst r. repeat split.
+    + cbn. constructor; [|assumption]. intros Hin. apply (Hdis f Hin). now left.
+    + intros g [Hg|Hg] Hs.
+      * cbn in Hg. subst g. assert (existsb (Nat.eqb f) seen = true) as Hx
+          by (apply existsb_exists; exists f; split; [assumption | apply Nat.eqb_refl]). congruence.
+      * apply (Hdis g Hg). now right.
+    + intros gv [Hgv|Hgv]; [subst; assumption | now apply Hchk].
+Qed.
+
+Definition Passes (t : ty) (v : pv) : Prop := exists m, forall f, m <= f -> unm rt E f t v = Ok v.
+
+Lemma passes_lift : forall t t' v, (forall f x, unm rt E (S f) t x = unm rt E f t' x) -> Passes t' v -> Passes t v.
+Proof. intros t t' v H [m Hm]. exists (S m). intros [|f] Hf; [lia|]. rewrite H. apply Hm. lia. Qed.
+
+Lemma passes_and : forall t1 v1 t2 v2, Passes t1 v1 -> Passes t2 v2 ->
+  exists m, forall f, m <= f -> unm rt E f t1 v1 = Ok v1 /\ unm rt E f t2 v2 = Ok v2.
+Proof.
+  intros t1 v1 t2 v2 [m1 H1] [m2 H2]. exists (Nat.max m1 m2). intros f Hf. split; [apply H1 | apply H2]; lia.
+Qed.
+
+Lemma is_none_ty_eq : forall t, is_none_ty t = true -> t = TNone.
+Proof. destruct t; cbn; intros H; try discriminate. reflexivity. Qed.
+
+Lemma optional_pair_spec : forall ts a, optional_pair ts = Some a ->
+  union_stack_u ts = [TNone; a] /\ In a ts /\
+  (forall P : ty -> bool, existsb P ts = true -> P a = true \/ P TNone = true).
+Proof.
+  intros ts a. destruct ts as [|x [|y [|z r]]]; cbn [optional_pair]; try discriminate.
+  destruct (is_none_ty y) eqn:Hy.
+  - intros H. inversion H. subst a. apply is_none_ty_eq in Hy. subst y. repeat split.
+    + unfold union_stack_u, isoptional. cbn [existsb is_none_ty]. rewrite orb_true_r.
+      unfold none_first. cbn [filter is_none_ty negb].
+      destruct (is_none_ty x) eqn:Hx; cbn; [apply is_none_ty_eq in Hx; now subst | reflexivity].
+    + now left.
+    + intros P HP. cbn in HP. rewrite orb_false_r in HP. now apply orb_true_iff in HP.
+  - destruct (is_none_ty x) eqn:Hx; [|discriminate]. intros H. inversion H. subst a.
+    apply is_none_ty_eq in Hx. subst x. repeat split.
+    + unfold union_stack_u, isoptional. cbn [existsb is_none_ty orb].
+      unfold none_first. cbn [filter is_none_ty negb]. now rewrite Hy.
+    + right. now left.
+    + intros P HP. cbn in HP. rewrite orb_false_r in HP. apply orb_true_iff in HP. tauto.
+Qed.
+
+(* ================================================================== pass-through *)
+Section Pass.
+Variable lv : nat -> pv -> bool.
+Hypothesis LAWS : PassLaws rt lv.
+Hypothesis WF : wf_env E.
+Notation vg := (vgen lv rt E false).
+Notation oo := (optional_only E).
+
+Section Step.
+Variable n : nat.
+Hypothesis IH : forall T v, oo n T = true -> vg n T v = true -> Passes T v.
+
+Lemma cls_core : forall c cd fs, E c = Some (NClass cd) ->
+  forallb (fun fd => oo n (fty fd)) (cfields cd) = true ->
+  Forall2 (fun fd gv => fname fd = fst gv /\ vg n (fty fd) (snd gv) = true) (cfields cd) fs ->
+  exists m, forall f, m <= f ->
+    fold_left (cls_step (unm rt E f) cd) (map pk fs) (Ok []) = Ok fs /\ fill_fields (cfields cd) fs = Ok fs.
+Proof.
+  intros c cd fs HE Ho HF.
+  pose proof (WF c cd HE) as Hnd.
+  pose proof (Forall2_map_fst _ _ _ HF) as Hmap.
+  assert (NoDup (map fst fs)) as Hnd' by now rewrite Hmap.
+  destruct (ex_merge (fun f gv => exists ft, field_ty cd (fst gv) = Some ft /\ unm rt E f ft (snd gv) = Ok (snd gv)) fs)
+    as [m Hm].
+  { intros gv Hin. destruct (Forall2_in_r _ _ _ _ HF Hin) as [fd [Hfd [Hn Hv]]].
+    rewrite forallb_forall in Ho. destruct (IH _ _ (Ho fd Hfd) Hv) as [m Hm].
+    exists m. intros f Hf. exists (fty fd). split; [rewrite <- Hn; now apply field_ty_nodup | now apply Hm]. }
+  exists m. intros f Hf. split; [|now apply fill_self].
+  rewrite (fold_pass _ cd fs []); [reflexivity | assumption | intros g _ [] | intros gv Hin; now apply Hm].
+Qed.
+
+Lemma pass_cls : forall c v,
+  match E c with None => true | Some (NType t') => oo n t'
+  | Some (NClass cd) => forallb (fun fd => oo n (fty fd)) (cfields cd) end = true ->
+  match E c with
+  | None => false
+  | Some (NType t') => vg n t' v
+  | Some (NClass cd) =>
+      match cflavour cd, v with
+      | FTypedDict, PDict KDict kvs =>
+          td_ok (fun f x => match field_ty cd f with Some ft => vg n ft x | None => false end) kvs []
+      | FNamedTuple, PNamed c' l => Nat.eqb c c' && all2 true (fun fd x => vg n (fty fd) x) (cfields cd) l
+      | FDataclass, PObj c' fs | FPlain, PObj c' fs =>
+          Nat.eqb c c' &&
+          all2 true (fun fd gv => Nat.eqb (fname fd) (fst gv) && vg n (fty fd) (snd gv)) (cfields cd) fs
+      | _, _ => false
+      end
+  end = true ->
+  exists m, forall f, m <= f -> unm_cls (unm rt E f) c v = Ok v.
+Proof.
+  intros c v Ho Hv. unfold unm_cls. destruct (E c) as [[cd|t']|] eqn:HE; [| |discriminate].
+  2:{ destruct (IH _ _ Ho Hv) as [m Hm]. exists m. exact Hm. }
+  assert (forall c' fs, Nat.eqb c c' &&
+            all2 true (fun fd gv => Nat.eqb (fname fd) (fst gv) && vg n (fty fd) (snd gv)) (cfields cd) fs = true ->
+            (cflavour cd = FDataclass \/ cflavour cd = FPlain) ->
+            exists m, forall f, m <= f ->
+              bind (load rt (PObj c' fs)) (fun d => bind (iteritems rt E d) (fun kvs =>
+              bind (fold_left (cls_step (unm rt E f) cd) kvs (Ok [])) (fun kw => construct_class c cd kw)))
+              = Ok (PObj c' fs)) as Hobj.
+  { intros c' fs H Hfl. apply andb_true_iff in H as [Hc Ha]. apply Nat.eqb_eq in Hc. subst c'.
+    apply all2_Forall2 in Ha.
+    assert (Forall2 (fun fd gv => fname fd = fst gv /\ vg n (fty fd) (snd gv) = true) (cfields cd) fs) as HF.
+    { eapply Forall2_imp; [|exact Ha]. intros fd gv H. apply andb_true_iff in H as [H1 H2].
+      apply Nat.eqb_eq in H1. auto. }
+    destruct (cls_core c cd fs HE Ho HF) as [m Hm]. exists m. intros f Hf. destruct (Hm f Hf) as [H1 H2].
+    cbn [load is_scalar bind]. rewrite iteritems_obj. cbn [bind]. rewrite H1. cbn [bind].
+    unfold construct_class. destruct Hfl as [Hfl|Hfl]; rewrite Hfl, H2; reflexivity. }
+  destruct (cflavour cd) eqn:Hfl; destruct v as [| |k l|k l|c' fs|c' l]; try discriminate.
+  - (* dataclass *) apply Hobj; auto.
+  - (* named tuple *)
+    apply andb_true_iff in Hv as [Hc Ha]. apply Nat.eqb_eq in Hc. subst c'.
+    apply all2_Forall2 in Ha. destruct (Forall2_combine _ _ _ Ha) as [HF Hsnd].
+    destruct (cls_core c cd _ HE Ho HF) as [m Hm]. exists m. intros f Hf. destruct (Hm f Hf) as [H1 H2].
+    cbn [load is_scalar bind iteritems]. unfold named_fields. rewrite HE, combine_pk. cbn [bind].
+    rewrite H1. cbn [bind]. unfold construct_class. rewrite Hfl, H2. cbn [bind]. now rewrite Hsnd.
+  - (* TypedDict *)
+    destruct k; [|discriminate].
+    destruct (td_shape _ _ _ Hv) as [fs [Hk [Hnd [_ Hchk]]]]. subst l.
+    destruct (ex_merge (fun f gv => exists ft, field_ty cd (fst gv) = Some ft /\ unm rt E f ft (snd gv) = Ok (snd gv)) fs)
+      as [m Hm].
+    { intros gv Hin. pose proof (Hchk gv Hin) as Hc. cbn beta in Hc.
+      destruct (field_ty cd (fst gv)) as [ft|] eqn:Hft; [|discriminate].
+      destruct (field_ty_in _ _ _ Hft) as [fd [Hfd Heq]]. subst ft.
+      rewrite forallb_forall in Ho. destruct (IH _ _ (Ho fd Hfd) Hc) as [m Hm].
+      exists m. intros f Hf. exists (fty fd). split; [reflexivity | now apply Hm]. }
+    exists m. intros f Hf. cbn [load is_scalar bind iteritems].
+    rewrite (fold_pass _ cd fs []); [| assumption | intros g _ [] | intros gv Hin; now apply Hm].
+    cbn [bind app]. unfold construct_class. rewrite Hfl. reflexivity.
+  - (* plain class *) apply Hobj; auto.
+Qed.
+End Step.
+
+Lemma pass_stable : forall n T v, oo n T = true -> vg n T v = true -> Passes T v.
+Proof.
+  induction n as [|n IH]; intros T v Ho Hv; [discriminate|].
+  destruct T; cbn [vgen] in Hv; cbn [optional_only] in Ho.
+  - (* TLeaf *) exists 1. intros [|f] Hf; [lia|]. rewrite unm_leaf. now apply (lv_pass _ _ LAWS).
+  - (* TNone *) apply pv_eqb_eq in Hv. subst. exists 1. intros [|f] Hf; [lia|]. rewrite unm_none.
+    apply (none_pass _ (pl_none _ _ LAWS)).
+  - (* TSeq *)
+    destruct v as [| |k' l| | |]; try discriminate.
+    apply andb_true_iff in Hv as [Hv Hset]. apply andb_true_iff in Hv as [Hk Hl].
+    apply seqkind_eqb_eq in Hk. subst k'.
+    destruct (ex_merge (fun f x => unm rt E f T x = Ok x) l) as [m Hm].
+    { intros x Hx. rewrite forallb_forall in Hl. apply (IH T x Ho (Hl x Hx)). }
+    exists (S m). intros [|f] Hf; [lia|]. rewrite unm_seq. cbn [load is_scalar bind itervalues].
+    rewrite mapM_id; [cbn [bind]; now apply construct_seq_id|].
+    apply Forall_forall. intros x Hx. apply Hm; [lia | assumption].
+  - (* TMap *)
+    destruct v as [| | |k' kvs| |]; try discriminate.
+    apply andb_true_iff in Hv as [Hv Hkeys]. apply andb_true_iff in Hv as [Hk Hl].
+    apply dictkind_eqb_eq in Hk. subst k'. apply andb_true_iff in Ho as [Ho1 Ho2].
+    destruct (ex_merge (fun f kv => unm rt E f T1 (fst kv) = Ok (fst kv) /\ unm rt E f T2 (snd kv) = Ok (snd kv)) kvs)
+      as [m Hm].
+    { intros kv Hx. rewrite forallb_forall in Hl. pose proof (Hl kv Hx) as H.
+      apply andb_true_iff in H as [H1 H2]. apply passes_and; now apply IH. }
+    exists (S m). intros [|f] Hf; [lia|]. rewrite unm_map. cbn [load is_scalar bind iteritems].
+    rewrite mapM_id; [cbn [bind]; now apply construct_map_id|].
+    apply Forall_forall. intros [a b] Hx. destruct (Hm f ltac:(lia) _ Hx) as [H1 H2]. cbn in H1, H2.
+    unfold map_step. cbn [fst snd]. now rewrite H1, H2.
+  - (* TTuple *)
+    destruct v as [| |k' l| | |]; try discriminate. destruct k'; try discriminate.
+    destruct (ex_merge (fun f tv => unm rt E f (fst tv) (snd tv) = Ok (snd tv)) (zip_trunc ts l)) as [m Hm].
+    { intros tv Hin. destruct (zip_in _ _ _ _ _ Hv Hin) as [H1 [H2 _]].
+      rewrite forallb_forall in Ho. now apply IH; [apply Ho|]. }
+    exists (S m). intros [|f] Hf; [lia|]. rewrite unm_tuple. cbn [load is_scalar bind itervalues].
+    rewrite (tuple_pass _ _ _ _ _ Hv); [reflexivity|]. intros tv Hin. apply Hm; [lia | assumption].
+  - (* TUnion *)
+    destruct (optional_pair ts) as [a|] eqn:Hop; [|discriminate].
+    destruct (optional_pair_spec _ _ Hop) as [Hstack [_ Hex]].
+    destruct (pv_eqb v (none rt)) eqn:Hnone.
+    + apply pv_eqb_eq in Hnone. subst v. exists 2. intros [|[|f]] Hf; try lia.
+      rewrite unm_union, Hstack. cbn [map first_ok]. rewrite unm_none.
+      now rewrite (none_pass _ (pl_none _ _ LAWS)).
+    + assert (vg n a v = true) as Ha.
+      { destruct (Hex _ Hv) as [H|H]; [assumption|]. destruct n; cbn in H; congruence. }
+      destruct (IH _ _ Ho Ha) as [m Hm].
+      destruct (none_rejects _ (pl_none _ _ LAWS) v Hnone) as [e [He Hs]].
+      exists (S (S m)). intros [|[|f]] Hf; try lia.
+      rewrite unm_union, Hstack. cbn [map first_ok]. rewrite unm_none, He, Hs.
+      rewrite Hm by lia. reflexivity.
+  - (* TName *)
+    destruct (pass_cls n IH n0 v Ho Hv) as [m Hm]. exists (S m). intros [|f] Hf; [lia|].
+    rewrite unm_name. apply Hm. lia.
+  - (* TRef *)
+    destruct (pass_cls n IH n0 v Ho Hv) as [m Hm]. exists (S m). intros [|f] Hf; [lia|].
+    rewrite unm_ref. apply Hm. lia.
+  - (* TRefLeaf *) exists 1. intros [|f] Hf; [lia|]. rewrite unm_refleaf. now apply (lv_pass _ _ LAWS).
+  - (* TRefTo *) apply (passes_lift _ T); [intros; apply unm_refto | now apply IH].
+  - (* TNewType *) apply (passes_lift _ T); [intros; apply unm_newtype | now apply IH].
+  - (* TAlias *) apply (passes_lift _ T); [intros; apply unm_alias | now apply IH].
+  - (* TAliasStr *)
+    destruct (pass_cls n IH n0 v Ho Hv) as [m Hm]. exists (S m). intros [|f] Hf; [lia|].
+    rewrite unm_aliasstr. apply Hm. lia.
+  - (* TFinal *) apply (passes_lift _ T); [intros; apply unm_final | now apply IH].
+  - (* TClassVar *) apply (passes_lift _ T); [intros; apply unm_classvar | now apply IH].
+Qed.
+End Pass.
+
+(* ================================================================== monotonicity of vgen *)
+Definition vbody (lv : nat -> pv -> bool) (strict : bool) (rec : ty -> pv -> bool) (t : ty) (v : pv) : bool :=
+  match t with
+  | TLeaf s | TRefLeaf s => lv s v
+  | TNone => pv_eqb v (none rt)
+  | TSeq k a =>
+      match v with
+      | PSeq k' l => seqkind_eqb k k' && forallb (rec a) l && set_ok rt k l
+      | _ => false
+      end
+  | TMap k kt vt =>
+      match v with
+      | PDict k' kvs =>
+          dictkind_eqb k k' && forallb (fun kv => rec kt (fst kv) && rec vt (snd kv)) kvs
+          && keys_ok rt (map fst kvs)
+      | _ => false
+      end
+  | TTuple ts =>
+      match v with
+      | PSeq KTuple l => all2 strict rec ts l
+      | _ => false
+      end
+  | TUnion ts => existsb (fun t' => rec t' v) ts
+  | TName c | TRef c | TAliasStr _ c =>
+      match E c with
+      | None => false
+      | Some (NType t') => rec t' v
+      | Some (NClass cd) =>
+          match cflavour cd, v with
+          | FTypedDict, PDict KDict kvs =>
+              td_ok (fun f x => match field_ty cd f with Some ft => rec ft x | None => false end) kvs []
+          | FNamedTuple, PNamed c' l =>
+              Nat.eqb c c' && all2 true (fun fd x => rec (fty fd) x) (cfields cd) l
+          | FDataclass, PObj c' fs | FPlain, PObj c' fs =>
+              Nat.eqb c c' &&
+              all2 true (fun fd gv => Nat.eqb (fname fd) (fst gv) && rec (fty fd) (snd gv)) (cfields cd) fs
+          | _, _ => false
+          end
+      end
+  | TNewType _ t' | TAlias _ t' | TFinal t' | TClassVar t' | TRefTo t' => rec t' v
+  end.
+
+Lemma vgen_S_eq : forall lv s n t v, vgen lv rt E s (S n) t v = vbody lv s (vgen lv rt E s n) t v.
+Proof. reflexivity. Qed.
+
+Lemma vbody_mono : forall lv s s' (r1 r2 : ty -> pv -> bool) t v,
+  (s' = true -> s = true) -> (forall t v, r1 t v = true -> r2 t v = true) ->
+  vbody lv s r1 t v = true -> vbody lv s' r2 t v = true.
+Proof.
+  intros lv s s' r1 r2 t v Hs Hr H.
+  assert (forall c, match E c with
+      | None => false
+      | Some (NType t') => r1 t' v
+      | Some (NClass cd) =>
+          match cflavour cd, v with
+          | FTypedDict, PDict KDict kvs =>
+              td_ok (fun f x => match field_ty cd f with Some ft => r1 ft x | None => false end) kvs []
+          | FNamedTuple, PNamed c' l =>
+              Nat.eqb c c' && all2 true (fun fd x => r1 (fty fd) x) (cfields cd) l
+          | FDataclass, PObj c' fs | FPlain, PObj c' fs =>
+              Nat.eqb c c' &&
+              all2 true (fun fd gv => Nat.eqb (fname fd) (fst gv) && r1 (fty fd) (snd gv)) (cfields cd) fs
+          | _, _ => false
+          end
+      end = true ->
+      match E c with
+      | None => false
+      | Some (NType t') => r2 t' v
+      | Some (NClass cd) =>
+          match cflavour cd, v with
+          | FTypedDict, PDict KDict kvs =>
+              td_ok (fun f x => match field_ty cd f with Some ft => r2 ft x | None => false end) kvs []
+          | FNamedTuple, PNamed c' l =>
+              Nat.eqb c c' && all2 true (fun fd x => r2 (fty fd) x) (cfields cd) l
+          | FDataclass, PObj c' fs | FPlain, PObj c' fs =>
+              Nat.eqb c c' &&
+              all2 true (fun fd gv => Nat.eqb (fname fd) (fst gv) && r2 (fty fd) (snd gv)) (cfields cd) fs
+          | _, _ => false
+          end
+      end = true) as Hcls.
+  { intros c Hc. destruct (E c) as [[cd|t']|]; [| now apply Hr | discriminate].
+    assert (forall c' fs, Nat.eqb c c' &&
+        all2 true (fun fd gv => Nat.eqb (fname fd) (fst gv) && r1 (fty fd) (snd gv)) (cfields cd) fs = true ->
+        Nat.eqb c c' &&
+        all2 true (fun fd gv => Nat.eqb (fname fd) (fst gv) && r2 (fty fd) (snd gv)) (cfields cd) fs = true) as Hobj.
+    { intros c' fs Ho. apply andb_true_iff in Ho as [H1 H2]. rewrite H1. cbn.
+      eapply all2_impl; [auto | | exact H2]. intros fd gv _ _ Hx. apply andb_true_iff in Hx as [Hx1 Hx2].
+      now rewrite Hx1, (Hr _ _ Hx2). }
+    destruct (cflavour cd); destruct v as [| |k l|k l|c' fs|c' l]; try discriminate.
+    - now apply Hobj.
+    - apply andb_true_iff in Hc as [H1 H2]. rewrite H1. cbn.
+      eapply all2_impl; [auto | | exact H2]. intros fd x _ _ Hx. now apply Hr.
+    - destruct k; [|discriminate]. eapply td_ok_impl; [|exact Hc]. intros g x Hx. cbn beta in *.
+      destruct (field_ty cd g); [now apply Hr | discriminate].
+    - now apply Hobj. }
+  destruct t; cbn [vbody] in *; try assumption; try (now apply Hr); try (now apply Hcls).
+  - destruct v as [| |k' l| | |]; try discriminate.
+    apply andb_true_iff in H as [H Hset]. apply andb_true_iff in H as [Hk Hl].
+    rewrite Hk, Hset, (forallb_impl _ (r2 t) _ (fun x _ => Hr t x) Hl). reflexivity.
+  - destruct v as [| | |k' kvs| |]; try discriminate.
+    apply andb_true_iff in H as [H Hkeys]. apply andb_true_iff in H as [Hk Hl].
+    rewrite Hk, Hkeys. cbn. rewrite andb_true_r. eapply forallb_impl; [|exact Hl].
+    intros kv _ Hx. cbn beta in *. apply andb_true_iff in Hx as [Hx1 Hx2]. now rewrite (Hr _ _ Hx1), (Hr _ _ Hx2).
+  - destruct v as [| |k' l| | |]; try discriminate. destruct k'; try discriminate.
+    eapply all2_impl; [exact Hs | | exact H]. intros; now apply Hr.
+  - eapply existsb_impl; [|exact H]. intros t' Hx. now apply Hr.
+Qed.
+
+Lemma vgen_weak : forall lv n t v, vgen lv rt E true n t v = true -> vgen lv rt E false n t v = true.
+Proof.
+  intros lv. induction n as [|n IH]; intros t v H; [discriminate|].
+  rewrite vgen_S_eq in *. eapply vbody_mono; [| exact IH | exact H]. discriminate.
+Qed.
+
+Lemma vgen_S : forall lv s n t v, vgen lv rt E s n t v = true -> vgen lv rt E s (S n) t v = true.
+Proof.
+  intros lv s. induction n as [|n IH]; intros t v H; [discriminate|].
+  rewrite vgen_S_eq in H. rewrite vgen_S_eq. eapply vbody_mono; [| exact IH | exact H]. auto.
+Qed.
+
+Lemma vgen_le : forall lv s n m t v, n <= m -> vgen lv rt E s n t v = true -> vgen lv rt E s m t v = true.
+Proof. intros lv s n m t v Hle H. induction Hle; [assumption | now apply vgen_S]. Qed.
